@@ -23,7 +23,8 @@ META = {
              ' Also: descriptions that carry their own encoding / block si'
              'ze, decimal voxel sizes (rounding ties of the key formatting'
              '), axis ratios up to 2^40.'
-             " Round 16: descriptions that already carry several scales (the info of an existing dataset)."),
+             " Round 16: descriptions that already carry several scales (the info of an existing dataset)."
+             " Round 17: descriptions whose scale already carries chunk_sizes / key."),
     "trusted_base": ["validity predicate formalising the docstring of "
                      "fill_scales_for_dyadic_pyramid", "vlib/refs/"
                      "pyramid_model.py (cross-validated in C06)"],
@@ -60,6 +61,12 @@ def build_fullres(case):
     if case.get("desc_block"):
         info["scales"][0]["compressed_segmentation_block_size"] = list(
             case["desc_block"])
+    if case.get("desc_chunk_size"):
+        # ... as the first scale of a complete info does (documented as
+        # ignored: the generated chunk sizes follow --target-chunk-size)
+        c = case["desc_chunk_size"]
+        info["scales"][0]["chunk_sizes"] = [[c, c, c]]
+        info["scales"][0]["key"] = "full"
     # the description may be the info of an existing dataset (documented
     # use: `generate-scales-info --encoding=jpeg 8bit/info jpeg/`): only its
     # first scale counts, the others (made with other parameters) are dropped
@@ -370,6 +377,8 @@ def cases(draw):
                 [None, None, [8, 8, 8], [4, 4, 4], [16, 8, 2]]))
             if enc == "compressed_segmentation" else None,
             "extra_scales": draw(st.sampled_from([0, 0, 0, 1, 3, 9, 14])),
+            "desc_chunk_size": draw(st.sampled_from([None, None, 256, 7, 1,
+                                                     1024])),
             "cli": draw(st.integers(0, 9)) == 0}
 
 
